@@ -12,6 +12,17 @@ Key material lives in PyCA objects; what is verified here is the byte/token laye
   (nkeys, check words, padding, trailing bytes), wrong passphrase -> KeyEncryptionError, comment returned verbatim
 * _parse_rfc4716, _parse_pem, _match_next on the text the exporters write (structured symbolic input): the comment
   loses exactly one pair of quotes, headers/body survive, the first line selects the matching decoder
+* import dispatch layer: _decode_public / _decode_private / _decode_certificate (decoder by sniffed format, parsed
+  comment attached to the key, one-line algorithm token == algorithm in the blob else KeyImportError, `end` passed on),
+  _decode_pem_private (label x Proc-Type x passphrase decision table, DEK-Info split + unhex), _decode_pem_public,
+  _decode_der_private/_public, _decode_pkcs1_*, _decode_pkcs8_* (on the PrivateKeyInfo / SPKI tuple the exporter
+  writes: version 0|1, handler by OID, parameters-or-OMIT and key octets forwarded, RSA flag), _decode_openssh_public,
+  list readers (keys_of spec function: every block once, in order), import_private_key / import_public_key (only the
+  documented exceptions escape), _parse_openssh (comment = rest of line, verbatim), certificates export/sniffing
+* exporters: the argument of der_encode is the RFC 5208 PrivateKeyInfo / RFC 5280 SPKI / the algorithm's own PKCS#1
+  structure; RSA PKCS#1/PKCS#8 and EC SEC1/PKCS#8 structures field by field; str passphrases (UTF-8) on both sides
+* packet.MPInt / get_mpint proved relative to spec functions pow2 / bitlen / sbe / sunbe (shortest form included)
+* pbe._pbkdf_p12 block update I_j = (I_j + B + 1) mod 2^v (RFC 7292 B.2), as a region contract
 * bounded stand-ins on the real source text (extra_checks): wrap_base64/match_base64, MPInt, DER codec round trip,
   text-level export -> _match_next -> import round trip with awkward comments
 
@@ -40,8 +51,15 @@ ASSUMPTIONS = [
     'per-algorithm handlers (decode_ssh_private/public as called from the container reader) consume exactly the '
     'blob their encoder wrote or raise PacketDecodeError; proved for rsa/dsa/ecdsa/eddsa below at token level, '
     'assumed for sk-* keys',
-    'wrap_base64 / match_base64 (regular expression, generator) and MPInt / get_mpint (bit_length, signed '
-    'to_bytes) are outside the symbolic subset: bounded stand-ins on the real source text, NOT counted as proofs',
+    'wrap_base64 / match_base64 stay a bounded stand-in on the real source text (NOT counted as proof): match_base64 '
+    'is a regular-expression search and the payload is binascii base64 - library code outside the engine; MPInt / '
+    'get_mpint ARE proved (monotonicity of 2**k is supplied as lemma instances: a mathematical fact about pow2); the '
+    'bounded MPInt run remains as a cross-check of the spec functions against CPython',
+    'export_private_key: 0 <= rounds < 2**32 is a stated precondition (the bcrypt KDF options store rounds as uint32; '
+    'other values raise OverflowError from UInt32)',
+    '_match_next returns an offset 0 <= end <= len(data) and list readers get 1 <= end (callee contract assumed from '
+    'der_decode_partial / match_base64, whose results are stubs in the _match_next families)',
+    'registered handlers have ASCII pem_name constants; Ed25519/Ed448 public values are non-empty (32 / 57 bytes)',
 ]
 
 
@@ -54,6 +72,19 @@ class VSpec(Spec):
     @property
     def name(self):
         return f'{self.prop}.{self.module}.{self.qualname}[{self.variant}]'
+
+
+NOTES = [
+    'observation outside the claim (coordinator decision): export_public_key / export_certificate (rfc4716) write '
+    'the Comment header on one line whatever its length, RFC 4716 3.3 limits header lines to 72 bytes (continuation '
+    'with a backslash). OpenSSH / asyncssh read such files identically, so the interoperability claim holds; '
+    'repro: notes/findings/c15_rfc4716_comment_line_over_72.py',
+    'observation, fixed in /repo (8d430e0): RSAKey.decode_ssh_private divided by zero for p or q == 1 '
+    '(notes/findings/c15_obs_rsa_p1_zerodivision.py); the contract states PacketDecodeError iff p < 2 or q < 2',
+    'helper-level behaviour, not a property clause: _decode_openssh_private / _decode_pkcs1_* decode file supplied names '
+    'as ASCII in error messages (UnicodeDecodeError, a ValueError); import_private_key / import_public_key (under '
+    'contract) map every ValueError to KeyImportError',
+]
 
 
 def B(b):
@@ -420,7 +451,7 @@ def export_raises_export_error(c):
                  z3.And(_fmt(c, 'openssh'), P, z3.Not(bcrypt_ok(z3.IntVal(0)))))
 
 
-def _export_private_spec(variant, pp_type): return VSpec(
+def _export_private_spec(variant, pp_type): return (VSpec if variant else lambda v, *a, **k: Spec(*a, **k))(
     variant, 'C15', 'public_key', 'SSHKey.export_private_key', self_class='SSHKey',
     params=dict(format_name='str', passphrase=pp_type, cipher_name='str', hash_name='str', pbe_version='int',
                 rounds='int', ignore_few_rounds='bool'),
@@ -454,7 +485,7 @@ def _export_private_spec(variant, pp_type): return VSpec(
     lemmas=export_lemmas, returns='bytes')
 
 
-export_private_key = _export_private_spec('bytes-passphrase', 'opt[bytes]')
+export_private_key = _export_private_spec(None, 'opt[bytes]')
 export_private_key_str = _export_private_spec('str-passphrase', 'opt[str]')
 
 
@@ -462,8 +493,11 @@ export_private_key_str = _export_private_spec('str-passphrase', 'opt[str]')
 # The reader is run on the PROTOCOL.key grammar with every field symbolic (ghost components); the export layout
 # proved above is an instance (nkeys = 1, equal check words, padding 1..n), so acceptance of it is the round trip.
 def _def_be(st, w, v):
+    from pyvc.builtins_model import add_def
     t = be(z3.IntVal(w), v)
     st.assume(z3.And(v >= 0, v < 256 ** w, z3.Length(t) == w, unbe(t) == v))
+    # digit expansion: used only when a concrete model is needed for the native replay
+    add_def(st, t == z3.Concat(*[z3.Unit((v / (256 ** (w - 1 - i))) % 256) for i in range(w)]))
     return t
 
 
@@ -1012,6 +1046,8 @@ def bounded_der(tier):
     BitS, OID, Raw, Tagged = ns['BitString'], ns['ObjectIdentifier'], ns['RawDERObject'], ns['TaggedDERObject']
     vals = [None, True, False, b'', 'caf\u00e9', (), (1, (2, b'x')), frozenset({1, 2, 300})]
     vals += [v for v in _mp_values('quick') if abs(v) < (1 << 130)][::7]
+    vals += [(1 << k) + d for k in (1023, 1024, 2047, 2048, 4095, 4096) for d in (-1, 0, 1)]     # RSA-sized INTEGERs
+    vals += [-(1 << k) + d for k in (1023, 1024, 2048) for d in (-1, 0, 1)]
     vals += [bytes(n) for n in (1, 126, 127, 128, 129, 255, 256, 257, 65535, 65536, 70000)]
     vals += [BitS(b'\xa0', 5), BitS(b''), BitS(b'\xff\x80', 7), BitS(b'\x01' * 200)]
     # OIDs of the key formats (RSA, DSA, EC + curves, Ed25519/Ed448, PBES2/PBKDF2/AES, X.509 attribute arcs)
@@ -1139,8 +1175,24 @@ def cipher_block_sizes_lemma():
             'replayed': True}
 
 
+def wrap_width_lemmas():
+    """RFC 4716 3.4: "Each line ... MUST NOT be longer than 72 bytes" (the default width serves rfc4716, the OpenSSH
+    private container and certificates); RFC 7468 2: PEM generators MUST wrap at exactly 64 characters."""
+    from pyvc import extract
+    out = []
+    for mod, name, ok, why in (('misc', '_DEFAULT_WRAP_LEN', lambda v: 1 <= v <= 72, 'rfc4716-line-limit-72'),
+                               ('public_key', '_PEM_WRAP_LEN', lambda v: v == 64, 'rfc7468-wrap-64')):
+        try:
+            v = extract.get_module(mod).lookup_const(name)
+        except KeyError:
+            v = None
+        out.append({'name': f'C15.{mod}.{name}#{why}', 'verdict': 'proved' if isinstance(v, int) and ok(v) else 'refuted',
+                    'detail': v, 'backend': 'data (module constant)', 'replayed': True})
+    return out
+
+
 def extra_checks(tier, seed):
-    return {'lemmas': [cipher_block_sizes_lemma()],
+    return {'lemmas': [cipher_block_sizes_lemma()] + wrap_width_lemmas(),
             'bounded': [bounded_armour(tier), bounded_mpint(tier), bounded_text_round_trip(tier)] + bounded_der(tier)}
 
 
@@ -1492,7 +1544,10 @@ def get_mpint_stub(cx):
 
 
 get_mpint_stub.modifies = ()
-CODEC_ASSUMED = 'SSHPacket.get_mpint / MPInt are an inverse pair (bounded stand-in C15.packet.MPInt/get_mpint)'
+CODEC_ASSUMED = ('in the per-algorithm codec contracts mpint(v) stands for the bytes MPInt(v) writes and get_mpint is its '
+                 'inverse: proved below (MPInt / SSHPacket.get_mpint) relative to the spec functions pow2 / bitlen / sbe / '
+                 'sunbe; their correspondence to CPython (int.bit_length, signed to_bytes / from_bytes) is definitional + '
+                 'cross-checked by the bounded run and the per-path replay')
 ASSUMPTIONS.append(CODEC_ASSUMED)
 
 
@@ -1626,14 +1681,6 @@ ed_dec_priv = _codec_decode('eddsa', '_EdKey', 'decode_ssh_private', ED_G,
                             requires=lambda g: z3.Length(g['public_value']) > 0)     # 32 / 57 bytes
 
 
-# structured-input contracts: bounded work (normal runs need < 120 solver checks each)
-for _sp in list(Spec.registry):
-    if _sp.prop == 'C15' and _sp.setup is not None:
-        _sp.max_solver_checks = 400
-        _sp.max_struct_seconds = 240
-        _sp.length_abstraction = True
-
-
 # ====================================================================== _parse_openssh (one-line public format)
 # sshd(8) AUTHORIZED_KEYS: "<keytype> <base64 key> [comment]" - the comment is the REST of the line.  Format limit
 # (DESIGN C15 (e)): a comment round-trips iff it has no newline and no leading / trailing blank; blanks and tabs
@@ -1663,6 +1710,8 @@ def parse_openssh_setup(kind):
         st.env['data'] = VBytes(line)
         st.inputs['data'] = st.env['data']
         st.heap['__c15__'] = g
+        # the module-level algorithm registries are symbolic here; the native harness would consult the real ones
+        st.heap['__cut__'] = True
     return setup
 
 
@@ -1715,7 +1764,9 @@ def match_next_stub(cx):
     if cx.kwargs.get('public') is not None:
         outs += [_mn_result(cx, 'openssh', [f('bytes', 'line_alg'), f('opt[bytes]', 'line_comment'), f('bytes', 'blob')]),
                  _mn_result(cx, 'rfc4716', [f('opt[bytes]', 'hdr_comment'), f('bytes', 'blob')])]
-    return [Out(ret=o) for o in outs] + [Out(exc=VExc('KeyImportError'))]
+    n = z3.Length(cx.args[0].z)
+    # `end` is an offset into the data that was scanned (DER bytes consumed / end of the armour / len(data))
+    return [Out(ret=o, assume=[o.items[2].z >= 0, o.items[2].z <= n]) for o in outs] + [Out(exc=VExc('KeyImportError'))]
 
 
 match_next_stub.modifies = ()
@@ -1978,3 +2029,671 @@ def _pem_private_spec(kind):
 
 
 decode_pem_private_specs = [_pem_private_spec(k) for k in ('plain', 'dek', 'dek-malformed')]
+
+
+# ---------------------------------------------------------------------- _decode_pkcs8_private / _public
+# Run on the value the exporter hands to der_encode (proved above): PrivateKeyInfo (version, (oid[, params]), key)
+# and SubjectPublicKeyInfo ((oid[, params]), BIT STRING); plus values that are not of that shape.
+RSA_OID = VOpaque(z3.Const('rsa_encryption_oid', opaque_sort('Any')), 'Any')      # ObjectIdentifier('1.2.840.113549.1.1.1')
+
+
+def pkcs8_setup(public, shape):
+    def setup(ex, st):
+        g = {'shape': shape, 'public': public, 'oid': ex.fresh(st, 'any', 'g_oid'),
+             'params': ex.fresh(st, 'any', 'g_params'), 'key': _fresh_b('g_key_octets'),
+             'version': z3.Int(fresh_name('g_version')), 'unused': z3.Int(fresh_name('g_unused_bits'))}
+        algid = VTuple([g['oid']] + ([g['params']] if shape == 'with-params' else []))
+        if shape == 'not-a-sequence':
+            kd = VBytes(g['key'])
+        elif public:
+            g['bits'] = ex.new_object(st, 'BitString', 'g_bits')
+            st.set_field(g['bits'], 'value', VBytes(g['key']))
+            st.set_field(g['bits'], 'unused', VInt(g['unused']))
+            kd = VTuple([algid, g['bits']])
+        else:
+            kd = VTuple([VInt(g['version']), algid, VBytes(g['key'])])
+        st.env['key_data'] = kd
+        st.inputs['key_data'] = kd
+        st.heap['__c15__'] = g
+    return setup
+
+
+def pkcs8_accepts(c):
+    """RFC 5208 5 / RFC 5958 2 (version v1 = 0, v2 = 1) resp. RFC 5280 4.1 (no unused bits in a key BIT STRING):
+    the handler is the one registered for the algorithm OID in the AlgorithmIdentifier; it decodes (parameters or
+    OMIT, key octets); the constructor gets its tuple (+ the RSA validation flag for rsaEncryption private keys)"""
+    public = G(c, 'public')
+    gets = c.calls('_pkcs8_oid_map.get')
+    decs = c.calls('handler.decode_pkcs8_public' if public else 'handler.decode_pkcs8_private')
+    makes = c.calls('handler.make_public' if public else 'handler.make_private')
+    if G(c, 'shape') == 'not-a-sequence' or not (len(gets) == len(decs) == len(makes) == 1):
+        return z3.BoolVal(False)
+    conj = [c.eq(gets[0]['args'][0], G(c, 'oid')), c.eq(decs[0]['args'][1], VBytes(G(c, 'key'))),
+            c.eq(decs[0]['args'][0], G(c, 'params') if G(c, 'shape') == 'with-params' else VTag('class:OMIT')),
+            c.eq(c.result_v, makes[0]['ret'])]
+    got, dec = makes[0]['args'][0], decs[0]['ret'].val
+    if public:
+        conj += [G(c, 'unused') == 0, c.eq(got, dec)]
+    else:
+        is_rsa = c.eq(G(c, 'oid'), RSA_OID)
+        conj.append(z3.Or(G(c, 'version') == 0, G(c, 'version') == 1))
+        if isinstance(got, VTuple) and len(got.items) == len(dec.items) + 1:
+            conj += [is_rsa, c.eq(got.items[-1], c.argv('unsafe_skip_rsa_key_validation'))] + \
+                    [c.eq(a, b) for a, b in zip(got.items, dec.items)]
+        else:
+            conj += [z3.Not(is_rsa), c.eq(got, dec)]
+    return z3.And(conj)
+
+
+def pkcs8_rejects(c):
+    public = G(c, 'public')
+    gets = c.calls('_pkcs8_oid_map.get')
+    decs = c.calls('handler.decode_pkcs8_public' if public else 'handler.decode_pkcs8_private')
+    reasons = [z3.BoolVal(G(c, 'shape') == 'not-a-sequence'), _callee_raised(c)]
+    if G(c, 'shape') != 'not-a-sequence':
+        reasons.append(G(c, 'unused') != 0 if public else z3.Not(z3.Or(G(c, 'version') == 0, G(c, 'version') == 1)))
+    if len(gets) == 1 and not decs:
+        reasons.append(gets[0]['ret'].isnone)
+    if len(decs) == 1 and decs[0]['exc'] is None:
+        reasons.append(decs[0]['ret'].isnone)
+    return z3.Or(reasons)
+
+
+def _ascii_pem_name(cx, v):
+    """registered handlers carry ASCII pem_name class constants (b'RSA', b'DSA', b'EC', b'' - data in the repo)"""
+    ok = z3.Function('decodable_ascii', BytesS, BoolS)
+    return ok(cx.ex.get_field(cx.st, v.val, 'pem_name').z)
+
+
+def _pkcs8_spec(public, shape):
+    params = {'key_data': 'any'}
+    if not public:
+        params['unsafe_skip_rsa_key_validation'] = 'opt[bool]'
+    side = 'public' if public else 'private'
+    return VSpec(
+        shape, 'C15', 'public_key', f'_decode_pkcs8_{side}', params=params,
+        classes=dict(KEYOBJ, Handler={'pem_name': 'bytes'}, BitString={'value': 'bytes', 'unused': 'int'}),
+        globals={'OMIT': VTag('class:OMIT')}, setup=pkcs8_setup(public, shape),
+        stubs={'_pkcs8_oid_map.get': ret('opt[obj:Handler]', 'handler', assume=_ascii_pem_name),
+               'ObjectIdentifier': lambda cx: RSA_OID,
+               f'handler.decode_pkcs8_{side}': ret('opt[tuple[any,any]]', 'key_params'),
+               f'handler.make_{side}': _raising('obj:Key', 'key')},
+        ensures=[('handler-by-oid-parameters-and-key-octets-forwarded', pkcs8_accepts)],
+        raises={'KeyImportError': pkcs8_rejects},
+        returns='obj:Key')
+
+
+pkcs8_specs = [_pkcs8_spec(pub, sh) for pub in (False, True) for sh in ('with-params', 'omitted-params', 'not-a-sequence')]
+
+
+# ---------------------------------------------------------------------- _decode_pkcs1_private / _public
+def pkcs1_dec_post(public):
+    side = 'public' if public else 'private'
+
+    def post(c):
+        gets, decs, makes = c.calls('_pem_map.get'), c.calls(f'handler.decode_pkcs1_{side}'), \
+            c.calls(f'handler.make_{side}')
+        if not (len(gets) == len(decs) == len(makes) == 1):
+            return z3.BoolVal(False)
+        got, dec = makes[0]['args'][0], decs[0]['ret'].val
+        conj = [c.eq(gets[0]['args'][0], c.argv('pem_name')), c.eq(decs[0]['args'][0], c.argv('key_data')),
+                c.eq(c.result_v, makes[0]['ret'])]
+        is_rsa = c.arg('pem_name') == B(b'RSA')
+        if not public and isinstance(got, VTuple) and len(got.items) == len(dec.items) + 1:
+            conj += [is_rsa, c.eq(got.items[-1], c.argv('unsafe_skip_rsa_key_validation'))] + \
+                    [c.eq(a, b) for a, b in zip(got.items, dec.items)]
+        else:
+            conj += [c.eq(got, dec)] + ([] if public else [z3.Not(is_rsa)])
+        return z3.And(conj)
+    return post
+
+
+def pkcs1_dec_rejects(public):
+    side = 'public' if public else 'private'
+
+    def rej(c):
+        gets, decs = c.calls('_pem_map.get'), c.calls(f'handler.decode_pkcs1_{side}')
+        reasons = [_callee_raised(c)]
+        if len(gets) == 1 and not decs:
+            reasons.append(gets[0]['ret'].isnone)
+        if len(decs) == 1:
+            reasons.append(decs[0]['ret'].isnone)
+        return z3.Or(reasons)
+    return rej
+
+
+def _pkcs1_dec_spec(public):
+    side = 'public' if public else 'private'
+    params = {'pem_name': 'bytes', 'key_data': 'any'}
+    if not public:
+        params['unsafe_skip_rsa_key_validation'] = 'opt[bool]'
+    return Spec(
+        'C15', 'public_key', f'_decode_pkcs1_{side}', params=params, classes=dict(KEYOBJ, Handler={}),
+        stubs={'_pem_map.get': ret('opt[obj:Handler]', 'handler'),
+               f'handler.decode_pkcs1_{side}': ret('opt[tuple[any,any]]', 'key_params'),
+               f'handler.make_{side}': _raising('obj:Key', 'key')},
+        ensures=[('handler-by-pem-name-structure-forwarded', pkcs1_dec_post(public))],
+        # the message formatting decodes the (file supplied) label as ASCII: ValueError family, mapped by import_*_key
+        raises={'KeyImportError': pkcs1_dec_rejects(public),
+                'UnicodeDecodeError': lambda c: z3.BoolVal(not c.calls(f'handler.make_{side}'))},
+        returns='obj:Key')
+
+
+decode_pkcs1_private, decode_pkcs1_public = _pkcs1_dec_spec(False), _pkcs1_dec_spec(True)
+
+
+# ---------------------------------------------------------------------- _decode_der_private / _public
+PEM_NAMES = (b'RSA', b'EC', b'DSA')        # keys of _pem_map (registration order): pem_name constants of the handlers
+
+
+def der_dispatch_post(public):
+    side = 'public' if public else 'private'
+
+    def post(c):
+        """bare DER carries no label: PKCS#8 / SPKI is tried first, then every registered PKCS#1 structure; the key
+        is what the first accepting decoder returned, and each decoder saw the (decrypted, if possible) value"""
+        p8, p1, dec = c.calls(f'_decode_pkcs8_{side}'), c.calls(f'_decode_pkcs1_{side}'), c.calls('pkcs8_decrypt')
+        kd = c.argv('key_data')
+        conj = []
+        if not public:
+            pp = c.argv('passphrase')
+            conj.append(z3.BoolVal(len(dec) <= 1))
+            if dec:
+                conj += [z3.Not(pp.isnone), c.eq(dec[0]['args'][0], c.argv('key_data')), c.eq(dec[0]['args'][1], pp.val)]
+                if dec[0]['exc'] is None:
+                    kd = dec[0]['ret']
+            else:
+                conj.append(pp.isnone)
+        tried = p8 + p1
+        if len(p8) != 1 or not tried or tried[-1]['exc'] is not None or any(x['exc'] is None for x in tried[:-1]):
+            return z3.BoolVal(False)
+        conj += [c.eq(x['args'][0 if x in p8 else 1], kd) for x in tried]
+        # every registered PKCS#1 name is tried at most once (the order is not part of the property)
+        names = [concrete_bytes(x['args'][0]) for x in p1]
+        conj.append(z3.BoolVal(all(n in PEM_NAMES for n in names) and len(set(names)) == len(names)))
+        if not public:
+            conj += [c.eq(x['args'][-1], c.argv('unsafe_skip_rsa_key_validation')) for x in tried]
+        conj.append(c.eq(c.result_v, tried[-1]['ret']))
+        return z3.And(conj)
+    return post
+
+
+def _der_dispatch_spec(public):
+    side = 'public' if public else 'private'
+    params = {'key_data': 'any'}
+    stubs = {f'_decode_pkcs8_{side}': _raising('obj:Key', 'key'), f'_decode_pkcs1_{side}': _raising('obj:Key', 'key')}
+    if not public:
+        params.update(passphrase='opt[bytes]', unsafe_skip_rsa_key_validation='opt[bool]')
+        stubs['pkcs8_decrypt'] = may_raise(ret('any', 'private_key_info'), 'KeyEncryptionError')
+    n = len(PEM_NAMES)
+    return Spec(
+        'C15', 'public_key', f'_decode_der_{side}', params=params, classes=dict(KEYOBJ), stubs=stubs,
+        globals={'_pem_map': VTuple([VBytes(x) for x in PEM_NAMES])},
+        ensures=[('pkcs8-then-each-pkcs1-first-success-wins', der_dispatch_post(public))],
+        raises={'KeyImportError': lambda c: z3.BoolVal(
+            len(c.calls(f'_decode_pkcs8_{side}')) == 1 and len(c.calls(f'_decode_pkcs1_{side}')) == n and
+            all(x['exc'] is not None for x in c.calls(f'_decode_pkcs8_{side}') + c.calls(f'_decode_pkcs1_{side}')))},
+        returns='obj:Key')
+
+
+decode_der_private, decode_der_public = _der_dispatch_spec(False), _der_dispatch_spec(True)
+
+
+# ---------------------------------------------------------------------- _decode_openssh_public
+def openssh_public_setup(ex, st):
+    openssh_private_setup(True)(ex, st)      # any cipher name: the public part is never encrypted
+    st.heap['__cut__'] = False
+
+
+def openssh_public_post(c):
+    """PROTOCOL.key: the public key blob is the fifth field; it is decoded as an RFC 4253 6.6 key blob"""
+    d = c.calls('decode_ssh_public_key')
+    if len(d) != 1:
+        return z3.BoolVal(False)
+    return z3.And(G(c, 'nkeys') == 1, d[0]['args'][0].z == G(c, 'pubkey'), c.eq(c.result_v, d[0]['ret']))
+
+
+decode_openssh_public = Spec(
+    'C15', 'public_key', '_decode_openssh_public', params={'data': 'bytes'},
+    classes=dict(PACKET_CLASSES, **KEYOBJ), inline=dict(PACKET_INLINE), truthy=PACKET_TRUTHY,
+    stubs={'decode_ssh_public_key': _raising('obj:Key', 'key')}, setup=openssh_public_setup,
+    ensures=[('public-blob-of-the-container', openssh_public_post)],
+    raises={'KeyImportError': lambda c: z3.Or(G(c, 'nkeys') != 1, _callee_raised(c))}, returns='obj:Key')
+
+
+# ---------------------------------------------------------------------- import_private_key / import_public_key (API)
+def _api_spec(name, callee, extra_params, callee_excs, allowed):
+    def post(c):
+        d = c.calls(callee)
+        if len(d) != 1:
+            return z3.BoolVal(False)
+        key = d[0]['ret'].items[0]
+        want_data = c.argv('data')
+        return z3.And(c.eq(d[0]['args'][0], want_data) if isinstance(want_data, VBytes) else z3.BoolVal(True),
+                      z3.Not(c.is_none(key)), c.eq(c.result_v, key.val if isinstance(key, VOpt) else key),
+                      *[c.eq(a, c.argv(p)) for a, p in zip(d[0]['args'][1:], extra_params)])
+
+    def spec(variant, dtype):
+        return VSpec(variant, 'C15', 'public_key', name, params=dict({'data': dtype}, **extra_params),
+                     classes=dict(KEYOBJ),
+                     stubs={callee: may_raise(ret('tuple[opt[obj:Key],opt[int]]', 'decoded'), *callee_excs)},
+                     ensures=[('the-decoded-key-or-an-error', post)],
+                     # the documented failure modes, and nothing else, for ANY input (every ValueError / OverflowError
+                     # raised below is turned into KeyImportError here)
+                     raises={k: True for k in allowed}, returns='obj:Key')
+    return [spec('bytes', 'bytes'), spec('str', 'str')]
+
+
+import_private_key_specs = _api_spec(
+    'import_private_key', '_decode_private',
+    {'passphrase': 'opt[bytes]', 'unsafe_skip_rsa_key_validation': 'opt[bool]'},
+    ('KeyImportError', 'KeyEncryptionError', 'ValueError', 'UnicodeDecodeError', 'OverflowError'),
+    ('KeyImportError', 'KeyEncryptionError'))
+import_public_key_specs = _api_spec(
+    'import_public_key', '_decode_public', {},
+    ('KeyImportError', 'ValueError', 'UnicodeDecodeError', 'OverflowError'), ('KeyImportError',))
+
+
+# ====================================================================== certificates (format layer)
+CERT_FIELDS = {'is_x509': 'bool', 'public_data': 'bytes', 'algorithm': 'bytes', '_comment': 'opt[bytes]'}
+CERT_FORMATS = ('der', 'pem', 'openssh', 'rfc4716')
+
+
+def export_certificate_post(c):
+    """X.509 certificates: raw DER, or RFC 7468 section 5 `CERTIFICATE` armour; OpenSSH certificates: the one-line
+    form `<algorithm> <base64> [comment]` or RFC 4716 armour with the Comment header - same shapes as public keys"""
+    wraps = c.calls('wrap_base64')
+    pub = c.old('public_data')
+    cv, no_comment = _comment_term(c)
+    fmt = lambda *n: _fmt(c, *n)
+    conj = [z3.Implies(fmt('der', 'pem'), c.old('is_x509')), z3.Implies(fmt('rfc4716'), z3.Not(c.old('is_x509')))]
+    if not wraps:
+        line = lambda tail: z3.Concat(c.old('algorithm'), B(b' '), b64(pub), tail, B(b'\n'))
+        conj += [z3.Not(fmt('pem', 'rfc4716')), z3.Implies(fmt('der'), c.result == pub),
+                 z3.Implies(z3.And(fmt('openssh'), no_comment), c.result == line(z3.Empty(BytesS))),
+                 z3.Implies(z3.And(fmt('openssh'), z3.Not(no_comment)), c.result == line(z3.Concat(B(b' '), cv.val.z)))]
+    elif len(wraps) == 1:
+        w = wraps[0]
+        a = w['args']
+        pem = z3.And(z3.BoolVal(len(a) == 2 and not w['kwargs']), a[1].z == B(b'CERTIFICATE'))
+        r47 = z3.BoolVal(False)
+        if len(a) == 3 and set(w['kwargs']) == {'space'}:
+            r47 = z3.And(a[1].z == B(b'SSH2 PUBLIC KEY'), c.truthy(w['kwargs']['space']),
+                         z3.Implies(no_comment, a[2].z == z3.Empty(BytesS)),
+                         z3.Implies(z3.Not(no_comment), a[2].z == z3.Concat(B(b'Comment: "'), cv.val.z, B(b'"\n'))))
+        conj += [fmt('pem', 'rfc4716'), a[0].z == pub, c.result == w['ret'].z, z3.Implies(fmt('pem'), pem),
+                 z3.Implies(fmt('rfc4716'), r47)]
+    else:
+        return z3.BoolVal(False)
+    return z3.And(conj)
+
+
+export_certificate = Spec(
+    'C15', 'public_key', 'SSHCertificate.export_certificate', self_class='SSHCertificate',
+    params={'format_name': 'str'}, classes={'SSHCertificate': CERT_FIELDS},
+    stubs={'wrap_base64': ret('bytes', 'armoured'), 'binascii.b2a_base64': b2a_base64_stub},
+    ensures=[('format-shapes', export_certificate_post), ('known-format', lambda c: _fmt(c, *CERT_FORMATS))],
+    raises={'KeyExportError': lambda c: z3.Or(z3.Not(_fmt(c, *CERT_FORMATS)),
+                                              z3.And(c.old('is_x509'), _fmt(c, 'rfc4716')),
+                                              z3.And(z3.Not(c.old('is_x509')), _fmt(c, 'der', 'pem')))},
+    returns='bytes')
+
+
+def decode_certificate_post(c):
+    m0 = _first(c, '_match_next')
+    r = c.result_v
+    if m0 is None or not isinstance(r, VTuple) or len(r.items) != 2:
+        return z3.BoolVal(False)
+    fmt = concrete_str(m0['ret'].items[0]) if m0['ret'].items[0] is not VNone else None
+    info = m0['ret'].items[1].items
+    end = m0['ret'].items[2]
+    der, pem, ssh = c.calls('_decode_der_certificate'), c.calls('_decode_pem_certificate'), c.calls('decode_ssh_certificate')
+    conj = [c.eq(m0['args'][0], c.argv('data')), c.eq(m0['args'][1], VBytes(b'CERTIFICATE')),
+            c.truthy(m0['kwargs']['public']) if 'public' in m0['kwargs'] else False, c.eq(r.items[1], end)]
+    calls = der + pem + ssh
+    if fmt is None:
+        return z3.And(z3.BoolVal(not calls), c.is_none(r.items[0]), *conj)
+    if len(calls) != 1:
+        return z3.BoolVal(False)
+    conj.append(c.eq(r.items[0], calls[0]['ret']))
+    a = calls[0]['args']
+    if fmt == 'der':
+        # the DER certificate is exactly the bytes der_decode_partial consumed
+        conj += [z3.BoolVal(len(der) == 1 and len(a) == 1), a[0].z == z3.Extract(c.arg('data'), 0, end.z)]
+    elif fmt == 'pem':
+        conj += [z3.BoolVal(len(pem) == 1), c.eq(a[0], info[0]), c.eq(a[1], info[2])]
+    elif fmt == 'rfc4716':
+        conj += [z3.BoolVal(len(ssh) == 1), c.eq(a[0], info[1]), c.eq(a[1], info[0])]
+    else:
+        x509 = z3.PrefixOf(B(b'x509v3-'), info[0].z)
+        conj += [c.eq(a[0], info[2]), c.eq(a[1], info[1]), x509 if der else z3.Not(x509)]
+    return z3.And(conj)
+
+
+_cert_callee = lambda: _raising('obj:Key', 'cert')
+decode_certificate = Spec(
+    'C15', 'public_key', '_decode_certificate', params={'data': 'bytes'}, classes=dict(KEYOBJ),
+    stubs={'_match_next': match_next_stub, '_decode_der_certificate': _cert_callee(),
+           '_decode_pem_certificate': _cert_callee(), 'decode_ssh_certificate': _cert_callee()},
+    ensures=[('decoder-by-format-comment-forwarded', decode_certificate_post)],
+    raises={'KeyImportError': _callee_raised}, returns='tuple[opt[obj:Key],opt[int]]')
+
+
+# ---------------------------------------------------------------------- list readers (files holding several keys)
+# Spec functions over the text: first_key(d) / first_none(d) / first_end(d) = what the single-block decoder returns
+# for d (deterministic callee, other arguments fixed); keys_of(d) = the keys of all blocks, defined by
+#   keys_of(empty) = [],  keys_of(d) = ([first_key(d)] unless first_none(d)) ++ keys_of(d[first_end(d):]).
+KeyObjS = opaque_sort('KeyObj')
+first_key = z3.Function('first_key', BytesS, KeyObjS)
+first_none = z3.Function('first_none', BytesS, BoolS)
+first_end = z3.Function('first_end', BytesS, IntS)
+keys_of = z3.Function('keys_of', BytesS, z3.SeqSort(KeyObjS))
+
+
+def _keys_unfold(d):
+    """definitional instance of keys_of at d"""
+    n = z3.Length(d)
+    e = first_end(d)
+    rest = z3.Extract(d, e, n - e)
+    head = z3.If(first_none(d), z3.Empty(z3.SeqSort(KeyObjS)), z3.Unit(first_key(d)))
+    return z3.And(z3.Implies(n == 0, keys_of(d) == z3.Empty(z3.SeqSort(KeyObjS))),
+                  z3.Implies(n > 0, keys_of(d) == z3.Concat(head, keys_of(rest))))
+
+
+def block_decoder_stub(extra):
+    def stub(cx):
+        d = cx.args[0].z
+        for a, p in zip(cx.args[1:], extra):
+            cx.require(f'{p}-forwarded-unchanged', cx.ex.veq(cx.st, a, cx.ex.entry_state.env[p]))
+        key = VOpt(first_none(d), VOpaque(first_key(d), 'KeyObj'))
+        # callee contract: the block found ends inside the text and is not empty (proved per family for _match_next)
+        return [Out(ret=VTuple([key, VInt(first_end(d))]), assume=[first_end(d) >= 1, first_end(d) <= z3.Length(d)]),
+                Out(exc=VExc('KeyImportError'))]
+    stub.modifies = ()
+    return stub
+
+
+def _cur_keys(c, name='keys'):
+    v = c.ex.deref(c.new_state, c.localv(name))
+    return to_z3(v, 'seq[opaque:KeyObj]') if isinstance(v, VList) else v.z
+
+
+def _list_spec(name, callee, extra, acc='keys', item='key'):
+    return Spec(
+        'C15', 'public_key', name, params=dict({'data': 'bytes'}, **extra), stubs={callee: block_decoder_stub(list(extra))},
+        local_types={acc: 'seq[opaque:KeyObj]', item: 'opt[opaque:KeyObj]'},
+        loops={1: LoopSpec(
+            invariant=lambda c: z3.Concat(_cur_keys(c, acc), keys_of(c.local('data'))) == keys_of(c.arg('data')),
+            variant=lambda c: z3.Length(c.local('data')),
+            lemmas=lambda c: [_keys_unfold(c.local('data'))] +
+                             ([_keys_unfold(c.head.env['data'].z)] if getattr(c, 'head', None) is not None else []))},
+        ensures=[('every-block-read-once-in-order-none-skipped',
+                  lambda c: to_z3_seq(c.result_v, c) == keys_of(c.arg('data')))],
+        raises={'KeyImportError': True}, returns='seq[opaque:KeyObj]')
+
+
+def to_z3_seq(v, c):
+    v = c.ex.deref(c.new_state, v)
+    return to_z3(v, 'seq[opaque:KeyObj]') if isinstance(v, VList) else v.z
+
+
+PP_UNSAFE = {'passphrase': 'opt[bytes]', 'unsafe_skip_rsa_key_validation': 'opt[bool]'}
+decode_private_list = _list_spec('_decode_private_list', '_decode_private', PP_UNSAFE)
+decode_public_list = _list_spec('_decode_public_list', '_decode_public', {})
+decode_certificate_list = _list_spec('_decode_certificate_list', '_decode_certificate', {}, 'certs', 'cert')
+
+
+# ====================================================================== PKCS#1 / SEC1 / PKCS#8 structures (RSA, EC)
+RSA_CK_FULL = dict(RSA_CK, dmp1='opt[int]', dmq1='opt[int]')
+
+
+def _kf(c, n):
+    v = c.oldv(n, c.oldv('_key'))
+    return v
+
+
+def _tuple_is(c, got, want):
+    return z3.And([c.eq(a, b) for a, b in zip(got.items, want)]) \
+        if isinstance(got, VTuple) and len(got.items) == len(want) else z3.BoolVal(False)
+
+
+# RFC 8017 A.1.2: RSAPrivateKey ::= SEQUENCE { version 0, n, e, d, p, q, d mod (p-1), d mod (q-1), q^-1 mod p }
+rsa_pkcs1_priv = Spec(
+    'C15', 'rsa', 'RSAKey.encode_pkcs1_private', self_class='RSAKey',
+    classes={'RSAKey': {'_key': 'obj:CK'}, 'CK': RSA_CK_FULL},
+    ensures=[('rfc8017-RSAPrivateKey-field-order', lambda c: _tuple_is(
+        c, c.result_v, [VInt(0)] + [_kf(c, n) for n in ('n', 'e', 'd', 'p', 'q', 'dmp1', 'dmq1', 'iqmp')]))],
+    raises={'KeyExportError': lambda c: z3.Not(c.truthy(_kf(c, 'd')))}, returns='any')
+# RFC 8017 A.1.1: RSAPublicKey ::= SEQUENCE { modulus n, publicExponent e }
+rsa_pkcs1_pub = Spec(
+    'C15', 'rsa', 'RSAKey.encode_pkcs1_public', self_class='RSAKey',
+    classes={'RSAKey': {'_key': 'obj:CK'}, 'CK': RSA_CK_FULL},
+    ensures=[('rfc8017-RSAPublicKey-field-order', lambda c: _tuple_is(c, c.result_v, [_kf(c, 'n'), _kf(c, 'e')]))],
+    raises={}, returns='any')
+
+
+def _rsa_p8(side):
+    # RFC 8017 A.1 / RFC 3279 2.3.1: rsaEncryption parameters are NULL; the key octets are the DER RSA*Key
+    def post(c):
+        enc, inner = c.calls('der_encode'), c.calls(f'self.encode_pkcs1_{side}')
+        r = c.result_v
+        if len(enc) != 1 or len(inner) != 1 or not isinstance(r, VTuple) or len(r.items) != 2:
+            return z3.BoolVal(False)
+        return z3.And(z3.BoolVal(r.items[0] is VNone), c.eq(enc[0]['args'][0], inner[0]['ret']), c.eq(r.items[1], enc[0]['ret']))
+    return Spec('C15', 'rsa', f'RSAKey.encode_pkcs8_{side}', self_class='RSAKey', classes={'RSAKey': {}},
+                stubs={'der_encode': ret('bytes', 'der'),
+                       f'self.encode_pkcs1_{side}': may_raise(ret('any', 'structure'), 'KeyExportError')},
+                ensures=[('null-parameters-and-der-of-the-pkcs1-structure', post)],
+                raises={'KeyExportError': _callee_raised}, returns='any')
+
+
+rsa_pkcs8_priv, rsa_pkcs8_pub = _rsa_p8('private'), _rsa_p8('public')
+
+
+def rsa_pkcs1_dec_setup(n_items):
+    def setup(ex, st):
+        g = {'items': [z3.Int(fresh_name('g_int%d' % i)) for i in range(n_items)]}
+        st.env['key_data'] = VTuple([VInt(z) for z in g['items']])
+        st.inputs['key_data'] = st.env['key_data']
+        st.heap['__c15__'] = g
+    return setup
+
+
+# the reader of an RSAPrivateKey of 9 integers returns (n, e, d, p, q, dP, dQ, qInv) = items 1..8, in order
+rsa_pkcs1_dec_priv = Spec(
+    'C15', 'rsa', 'RSAKey.decode_pkcs1_private', params={'cls': 'any', 'key_data': 'any'},
+    stubs={'all_ints': lambda cx: VBool(all(isinstance(x, VInt) for x in cx.args[0].items))},
+    setup=rsa_pkcs1_dec_setup(9),
+    ensures=[('items-1-to-8-in-order', lambda c: _tuple_is(c, c.result_v, [VInt(z) for z in G(c, 'items')[1:9]]))],
+    raises={}, returns='any')
+rsa_pkcs1_dec_pub = Spec(
+    'C15', 'rsa', 'RSAKey.decode_pkcs1_public', params={'cls': 'any', 'key_data': 'any'},
+    stubs={'all_ints': lambda cx: VBool(all(isinstance(x, VInt) for x in cx.args[0].items))},
+    setup=rsa_pkcs1_dec_setup(2),
+    ensures=[('n-then-e', lambda c: _tuple_is(c, c.result_v, [VInt(z) for z in G(c, 'items')]))],
+    raises={}, returns='any')
+
+# ---- EC: RFC 5915 3: ECPrivateKey ::= SEQUENCE { version 1, privateKey OCTET STRING, [0] parameters, [1] publicKey }
+EC_KEY_CLASSES = {'_ECKey': {'_key': 'obj:CK', '_alg_oid': 'any'}, 'CK': {'private_value': 'opt[bytes]',
+                                                                       'public_value': 'bytes'}}
+
+
+def tagged_stub(cx):
+    return [Out(ret=cx.fresh('any', 'tagged'), event=('tagged', tuple(cx.args)))]
+
+
+tagged_stub.modifies = ()
+
+
+def ec_sec1_post(c):
+    tg, bits = c.calls('TaggedDERObject'), c.calls('BitString')
+    r = c.result_v
+    if len(tg) != 2 or len(bits) != 1 or not isinstance(r, VTuple) or len(r.items) != 4:
+        return z3.BoolVal(False)
+    by_tag = {concrete_int(t['args'][0]): t for t in tg}
+    if set(by_tag) != {0, 1}:
+        return z3.BoolVal(False)
+    return z3.And(c.eq(r.items[0], VInt(1)), c.eq(r.items[1], _kf(c, 'private_value')),
+                  c.eq(r.items[2], by_tag[0]['ret']), c.eq(by_tag[0]['args'][1], c.oldv('_alg_oid')),
+                  c.eq(r.items[3], by_tag[1]['ret']), c.eq(by_tag[1]['args'][1], bits[0]['ret']),
+                  c.eq(bits[0]['args'][0], _kf(c, 'public_value')), z3.BoolVal(len(bits[0]['args']) == 1))
+
+
+EC_INLINE = {'self.encode_public_tagged': ('ecdsa', '_ECKey.encode_public_tagged')}
+EC_STUBS = {'TaggedDERObject': tagged_stub, 'BitString': ret('any', 'bitstring')}
+ec_pkcs1_priv = Spec(
+    'C15', 'ecdsa', '_ECKey.encode_pkcs1_private', self_class='_ECKey', classes=EC_KEY_CLASSES,
+    inline=dict(EC_INLINE), stubs=dict(EC_STUBS),
+    ensures=[('rfc5915-ECPrivateKey', ec_sec1_post)],
+    raises={'KeyExportError': lambda c: z3.Not(c.truthy(_kf(c, 'private_value')))}, returns='any')
+
+
+def ec_p8_priv_post(c):
+    """RFC 5480 2.1.1: AlgorithmIdentifier parameters = the named curve OID; RFC 5915: the curve is then omitted
+    from the inner ECPrivateKey, which keeps version 1, the private octets and [1] publicKey"""
+    tg, bits, enc = c.calls('TaggedDERObject'), c.calls('BitString'), c.calls('der_encode')
+    r = c.result_v
+    if len(tg) != 1 or len(bits) != 1 or len(enc) != 1 or not isinstance(r, VTuple) or len(r.items) != 2:
+        return z3.BoolVal(False)
+    inner = enc[0]['args'][0]
+    return z3.And(c.eq(r.items[0], c.oldv('_alg_oid')), c.eq(r.items[1], enc[0]['ret']),
+                  _tuple_is(c, inner, [VInt(1), _kf(c, 'private_value'), tg[0]['ret']]),
+                  c.eq(tg[0]['args'][0], VInt(1)), c.eq(tg[0]['args'][1], bits[0]['ret']),
+                  c.eq(bits[0]['args'][0], _kf(c, 'public_value')))
+
+
+ec_pkcs8_priv = Spec(
+    'C15', 'ecdsa', '_ECKey.encode_pkcs8_private', self_class='_ECKey', classes=EC_KEY_CLASSES,
+    inline=dict(EC_INLINE), stubs=dict(EC_STUBS, der_encode=ret('bytes', 'der')),
+    ensures=[('curve-oid-parameters-and-inner-ECPrivateKey', ec_p8_priv_post)],
+    raises={'KeyExportError': lambda c: z3.Not(c.truthy(_kf(c, 'private_value')))}, returns='any')
+ec_pkcs8_pub = Spec(
+    'C15', 'ecdsa', '_ECKey.encode_pkcs8_public', self_class='_ECKey', classes=EC_KEY_CLASSES,
+    ensures=[('curve-oid-parameters-and-point-octets',
+              lambda c: _tuple_is(c, c.result_v, [c.oldv('_alg_oid'), _kf(c, 'public_value')]))],
+    raises={}, returns='any')
+
+
+# ====================================================================== pbe.py: PKCS#12 KDF block update
+# RFC 7292 B.2 step 6.C: "treating I as I_0 || I_1 || ... of v-bit blocks, set I_j = (I_j + B + 1) mod 2^v".
+# Contract on the body of the inner loop of _pbkdf_p12 (one block update, region of the real function).
+def _p12_region(fn):
+    import ast as _ast
+    loops = [n for n in _ast.walk(fn) if isinstance(n, _ast.For)]
+    inner = [n for n in loops if any(isinstance(t, _ast.Assign) and isinstance(t.targets[0], _ast.Subscript)
+                                     for t in n.body)]
+    return inner[0].body
+
+
+P12_V = 64      # hash block size of SHA-1 / MD5 (the PKCS#12 PBE schemes registered in pbe.py)
+
+
+def p12_setup(ex, st):
+    g = {'I': _fresh_b('g_I'), 'B': z3.Int(fresh_name('g_B')), 'i': z3.Int(fresh_name('g_i'))}
+    st.assume(z3.And(g['i'] >= 0, g['i'] + P12_V <= z3.Length(g['I']), g['B'] >= 0))
+    st.env.update(I=VBytes(g['I'], mutable=True), B=VInt(g['B']), i=VInt(g['i']), v=VInt(P12_V))
+    st.inputs.update(I=st.env['I'], B=st.env['B'], i=st.env['i'])
+    st.heap['__c15__'] = g
+    st.heap['__cut__'] = True       # a region of the function: not replayable from the function entry
+
+
+def p12_post(c):
+    I0, B_, i = G(c, 'I'), G(c, 'B'), G(c, 'i')
+    new = c.ex.deref(c.new_state, c.localv('I')).z
+    blk = z3.Extract(I0, i, P12_V)
+    want = be(z3.IntVal(P12_V), (unbe(blk) + B_ + 1) % (256 ** P12_V))
+    return new == z3.Concat(z3.Extract(I0, 0, i), want, z3.Extract(I0, i + P12_V, z3.Length(I0) - i - P12_V))
+
+
+pbkdf_p12_block = VSpec(
+    'block-update', 'C15', 'pbe', '_pbkdf_p12',
+    params=dict(hash_alg='any', passphrase='bytes', salt='bytes', count='int', key_size='int', idx='int'),
+    region=_p12_region, setup=p12_setup,
+    ensures=[('rfc7292-B.2-6C-block-plus-B-plus-1-mod-2^v', p12_post)], raises={}, returns='none')
+
+
+# ====================================================================== packet.MPInt / SSHPacket.get_mpint (RFC 4251 5)
+# mpint: two's complement, big-endian, shortest form, zero = empty string.  Spec functions (pyvc/builtins_model):
+# pow2(k) = 2**k, bitlen = int.bit_length (defined by 2**(n-1) <= |v| < 2**n), sbe(n, v) = signed big-endian in n bytes
+# (defined for -2**(8n-1) <= v < 2**(8n-1)), sunbe its inverse.
+from pyvc.builtins_model import pow2, bitlen, sbe, sunbe
+
+
+def _fits(n, v):
+    return z3.If(n == 0, v == 0, z3.And(n > 0, -pow2(8 * n - 1) <= v, v < pow2(8 * n - 1)))
+
+
+def _mono(a, b):
+    """2**a <= 2**b for 0 <= a <= b, and strictly for a < b: mathematical facts about 2**k (instances)"""
+    return z3.And(z3.Implies(z3.And(a >= 0, a <= b), pow2(a) <= pow2(b)),
+                  z3.Implies(z3.And(a >= 0, a < b), 2 * pow2(a) <= pow2(b)))
+
+
+def mpint_lemmas(c):
+    v = c.arg('value')
+    n = bitlen(v)
+    out = []
+    if c.raised is None and isinstance(c.result_v, VBytes):
+        L = z3.Length(c.result) - 4
+        pts = [n - 1, n, 8 * L - 1, 8 * L - 9]
+    else:
+        pts = [n - 1, n]
+        for k in (n, n + 1):
+            L = (k + 7) / 8
+            pts += [8 * L - 1, 8 * L - 9]
+    for a in pts:
+        for b in pts:
+            if a is not b:
+                out.append(_mono(a, b))
+    return out
+
+
+def mpint_post(c):
+    v = c.arg('value')
+    L = z3.Length(c.result) - 4
+    minimal = z3.Or(L == 0, z3.Not(_fits(L - 1, v)))
+    return z3.And(L >= 0, c.result == z3.Concat(be(z3.IntVal(4), L), sbe(L, v)), _fits(L, v), minimal)
+
+
+enc_mpint = Spec(
+    'C15', 'packet', 'MPInt', params={'value': 'int'},
+    # a value whose encoding would need 2**32 or more bytes cannot exist in memory (same standing assumption as len())
+    requires=lambda c: bitlen(c.arg('value')) < 2 ** 34,
+    ensures=[('rfc4251-mpint-twos-complement-shortest-form', mpint_post)],
+    raises={}, lemmas=mpint_lemmas, returns='bytes')
+
+
+def get_mpint_setup(ex, st):
+    g = {'pre': _fresh_b('g_pre'), 'rest': _fresh_b('g_rest'), 'v': z3.Int(fresh_name('g_v')),
+         'n': z3.Int(fresh_name('g_n'))}
+    # what MPInt writes (contract above): uint32 n, then the n-byte two's complement form of v
+    st.assume(_fits(g['n'], g['v']))
+    field = sbe(g['n'], g['v'])
+    st.assume(z3.And(z3.Length(field) == g['n'], g['n'] >= 0))
+    data = z3.Concat(g['pre'], _def_be(st, 4, g['n']), field, g['rest'])
+    pkt = st.env['self']
+    from pyvc import bstruct
+    st.set_field(pkt, '_packet', VBytes(data))
+    st.set_field(pkt, '_idx', VInt(z3.Length(g['pre'])))
+    st.set_field(pkt, '_len', VInt(bstruct.norm_len(z3.Length(data))))
+    for k in ('_packet', '_idx', '_len'):
+        st.inputs['self.' + k] = st.rec(pkt).fields[k]
+    st.heap['__c15__'] = g
+
+
+dec_mpint = Spec(
+    'C15', 'packet', 'SSHPacket.get_mpint', self_class='SSHPacket', classes=dict(PACKET_CLASSES),
+    inline=dict(PACKET_INLINE), setup=get_mpint_setup,
+    ensures=[('decodes-what-MPInt-wrote', lambda c: c.result == G(c, 'v')),
+             ('leaves-the-rest', lambda c: z3.And(
+                 c.new('_idx') == z3.Length(c.new('_packet')) - z3.Length(G(c, 'rest')),
+                 c.new('_packet') == c.old('_packet')))],
+    raises={}, returns='int')
+
+
+# structured-input contracts: bounded work (normal runs need < 120 solver checks each)
+for _sp in list(Spec.registry):
+    if _sp.prop == 'C15' and _sp.setup is not None:
+        _sp.max_solver_checks = 400
+        _sp.max_struct_seconds = 240
+        _sp.length_abstraction = True
